@@ -309,7 +309,11 @@ class CallMixin(StmtMixin):
         for names, cond in raises.items():
             names_t = names if isinstance(names, tuple) else (names,)
             cond = And(*_aslist(cond))
-            conds.append(cond)
+            may = bool(names_t) and names_t[0] == "?"
+            if may:
+                names_t = names_t[1:]
+            else:
+                conds.append(cond)
             if cond is False:
                 continue
             cz = cond if cond is True else z3.simplify(cond)
@@ -349,7 +353,8 @@ class CallMixin(StmtMixin):
             tv = binds.get(tp)
             if isinstance(tv, Ref) and st_h.obj(tv).kind == "msg":
                 st_h = self.protomodel.touch(st_h, tv)
-        alts = self.result_alternatives(c.result) if c.result is not None else [None]
+        rsort = c.result(env) if callable(c.result) else c.result
+        alts = self.result_alternatives(rsort) if rsort is not None else [None]
         for alt in alts:
             st_n = st_h
             res: Any = None
@@ -461,6 +466,10 @@ class CallMixin(StmtMixin):
 
     # --------------------------------------------------------------- construct
     def construct(self, st: State, ci: ClassInfo, args: list, kwargs: dict, node: Any, ctx: Ctx) -> Res:
+        override = getattr(self.reg, "class_constructors", {}).get((ci.module.name, ci.name))
+        if override is not None:
+            yield from override(self, st, args, kwargs, node)
+            return
         mro_names = [c if isinstance(c, str) else c.name for c in ci.mro()]
         if any(n in V.EXC_PARENTS for n in mro_names if isinstance(n, str)) and any(isinstance(c, str) and c in V.EXC_PARENTS for c in ci.mro()):
             yield st, ExcVal(ci.name, args[0] if args else None)
@@ -614,6 +623,16 @@ class CallMixin(StmtMixin):
                 yield st.heap_set(obj, attr, val), None
                 return
             raise Unsupported("object.__setattr__ on a non-object", node)
+        if name == "itertools.chain":
+            items: list = []
+            for a in args:
+                got = list(self.iterate_all(st, a, node))
+                if len(got) != 1 or isinstance(got[0][1], Raised):
+                    raise Unsupported("itertools.chain over something that cannot be iterated in place", node)
+                items += got[0][1]
+            st2, r = self.alloc(st, "list", None, items=tuple(items))
+            yield st2, r
+            return
         if name in ("typing.cast", "builtins.cast"):
             yield st, args[1]
             return
@@ -771,6 +790,9 @@ class CallMixin(StmtMixin):
                     yield st1, Raised(ExcVal("TypeError"))
                 else:
                     yield from self.builtin_getattr(st1, [obj, name.val] + args[2:], kwargs, node, ctx)
+            return
+        if name is None:
+            yield st, Raised(ExcVal("TypeError"))      # getattr(obj, None): attribute name must be string
             return
         if isinstance(name, Ref) and st.obj(name).kind == "enumname":
             # getattr(jelly.SomeEnum, SomeEnum.Name(v)) == v
